@@ -281,7 +281,7 @@ def run(ctx):
         traces.append(run_case(P.ASCII, program, 100000, [(P.lit('aab'), 'str')], 'list', tid, withexit=True))
         tid += 1
     # random larger dialogues
-    for i in range(300 if ctx.quick() else 6000):
+    for i in range(1200 if ctx.quick() else 8000):
         prog = []
         for _ in range(rng.randint(1, 6)):
             k = rng.random()
